@@ -522,6 +522,95 @@ class CFG(object):
                     changed = True
         return dom
 
+    def path_with_flags(self, src: Node, dst: Node, avoid: Iterable[Node] = (),
+                        follow_exc=False, env=None) -> Optional[List[Node]]:
+        """Like path(), but tracks local names that are assigned the
+        constants True/False/None along the way and prunes the branch of a
+        test `if name` / `if not name` / `name is [not] None` that the
+        tracked value rules out (boolean flag idiom: the handler sets
+        `changed = True`, the statement after the try tests it).  States are
+        (node, frozenset(env)); any other assignment to a tracked name makes
+        it unknown again."""
+        avoid_ids = {a.id for a in avoid}
+        if src.id in avoid_ids:
+            return None
+        start = (src.id, frozenset((env or {}).items()))
+        prev = {start: None}
+        byid = {n.id: n for n in self.nodes}
+        work = [start]
+
+        def transfer(n, e):
+            e = dict(e)
+            a = n.ast if n.kind == 'stmt' else None
+            if isinstance(a, (ast.Assign, ast.AugAssign, ast.AnnAssign)):
+                tg = a.targets if isinstance(a, ast.Assign) else [a.target]
+                for t in tg:
+                    for x in ast.walk(t):
+                        if isinstance(x, ast.Name):
+                            if isinstance(a, ast.Assign) and t is x and \
+                                    isinstance(a.value, ast.Constant) and \
+                                    (a.value.value is None or
+                                     isinstance(a.value.value, bool)):
+                                e[x.id] = a.value.value
+                            else:
+                                e.pop(x.id, None)
+            elif n.kind in ('for', 'with', 'except') and n.ast is not None:
+                for r in n.roots():
+                    for x in ast.walk(r):
+                        if isinstance(x, ast.Name) and \
+                                isinstance(x.ctx, ast.Store):
+                            e.pop(x.id, None)
+            return e
+
+        def verdict(t, e):
+            """True/False when the test's outcome is known under e."""
+            a = t.ast
+            neg = False
+            while isinstance(a, ast.UnaryOp) and isinstance(a.op, ast.Not):
+                a, neg = a.operand, not neg
+            v = None
+            if isinstance(a, ast.Name) and a.id in e:
+                v = bool(e[a.id])
+            elif isinstance(a, ast.Compare) and len(a.ops) == 1 and \
+                    isinstance(a.left, ast.Name) and a.left.id in e and \
+                    isinstance(a.comparators[0], ast.Constant) and \
+                    a.comparators[0].value is None and \
+                    isinstance(a.ops[0], (ast.Is, ast.IsNot)):
+                v = (e[a.left.id] is None) == isinstance(a.ops[0], ast.Is)
+            if v is None:
+                return None
+            return v != neg
+
+        while work:
+            nxt = []
+            for st in work:
+                nid, fe = st
+                n = byid[nid]
+                if n is dst:
+                    out, cur = [], st
+                    while cur is not None:
+                        out.append(byid[cur[0]])
+                        cur = prev[cur]
+                    return list(reversed(out))
+                e = transfer(n, dict(fe))
+                known = verdict(n, e) if n.kind in ('test', 'operand') \
+                    else None
+                for s, l in n.succ:
+                    if l == 'exc' and not follow_exc:
+                        continue
+                    if known is True and l == 'F':
+                        continue
+                    if known is False and l == 'T':
+                        continue
+                    if s.id in avoid_ids and s is not dst:
+                        continue
+                    ns = (s.id, frozenset(e.items()))
+                    if ns not in prev:
+                        prev[ns] = st
+                        nxt.append(ns)
+            work = nxt
+        return None
+
     def dominates(self, a: Node, b: Node, follow_exc=True) -> bool:
         """Every path entry→b passes through a."""
         if a is b:
